@@ -311,6 +311,263 @@ theorem foreign_identity_ignores_epsg (w e e' s s' : Bool) :
     (foreignIdentity true e s = .ok .wkt) ∧ (∃ err, foreignIdentity false e s = .error err) := by
   cases w <;> simp [foreignIdentity]
 
+/-- `mismatch_raises` without `StepsTotal`, for `functools.reduce`: the CRS error is raised at
+the first differing operand provided shapely succeeded on the CRS-consistent operands before
+it (if shapely fails earlier, that failure is what propagates — still no result). -/
+theorem reduce_first_mismatch (D : Delegate S R) (name : String) (e : Err) (t0 : Tag) :
+    ∀ (pre : List (Obj S)) (acc acc' : R) (y : Obj S) (post : List (Obj S)),
+      (∀ x ∈ pre, tagEq t0 x.crs = true) → rawReduce D name acc (pre.map (·.raw)) = .ok acc' →
+      tagNe t0 y.crs = true → reduceGo D name e t0 acc (pre ++ y :: post) = .error e := by
+  intro pre
+  induction pre with
+  | nil => intro acc acc' y post _ _ hy; simp [reduceGo, hy]
+  | cons x pre ih =>
+    intro acc acc' y post hall hraw hy
+    have hx : tagNe t0 x.crs = false := (tagNe_false_iff _ _).mpr (hall x (List.mem_cons_self ..))
+    simp only [List.map_cons, rawReduce] at hraw
+    simp only [List.cons_append, reduceGo, hx, Bool.false_eq_true, if_false]
+    cases hs : D.step name acc x.raw with
+    | error e' => simp [hs] at hraw
+    | ok a1 =>
+      simp only [hs] at hraw ⊢
+      exact ih a1 acc' y post (fun z hz => hall z (List.mem_cons_of_mem _ hz)) hraw hy
+
+/-- the same for the pixel-domain generator of `geobox_*_conservative` -/
+theorem pixel_first_mismatch (D : Delegate S R) (name : String) (e : Err) (ref : Obj S) :
+    ∀ (pre : List (Obj S)) (bs : List R) (y : Obj S) (post : List (Obj S)),
+      (∀ x ∈ pre, tagEq ref.crs x.crs = true) → rawPix D name ref.raw (pre.map (·.raw)) = .ok bs →
+      tagNe y.crs ref.crs = true → pixGo D name e ref (pre ++ y :: post) = .error e := by
+  intro pre
+  induction pre with
+  | nil => intro bs y post _ _ hy; simp [pixGo, hy]
+  | cons x pre ih =>
+    intro bs y post hall hraw hy
+    have hx : tagNe x.crs ref.crs = false := by
+      rw [tagNe_symm]; exact (tagNe_false_iff _ _).mpr (hall x (List.mem_cons_self ..))
+    simp only [List.map_cons, rawPix] at hraw
+    simp only [List.cons_append, pixGo, hx, Bool.false_eq_true, if_false]
+    cases hp : D.pix name x.raw ref.raw with
+    | error e' => simp [hp] at hraw
+    | ok b =>
+      simp only [hp] at hraw ⊢
+      cases hr : rawPix D name ref.raw (pre.map (·.raw)) with
+      | error e' => simp [hr] at hraw
+      | ok bs' =>
+        rw [ih bs' y post (fun z hz => hall z (List.mem_cons_of_mem _ hz)) hr hy]
+/-! ### operations as programs: the check precedes every geometric short-cut -/
+
+theorem runBody_of_eq (op : OpSpec) (D : Delegate S R) (Q : Quick S R) (t0 : Tag) (x : Obj S)
+    (hx : tagNe t0 x.crs = false) :
+    ∀ (body : List LoopStmt) (acc : R), ∃ acc', runBody op D Q t0 x acc body = .ok acc' := by
+  intro body
+  induction body with
+  | nil => intro acc; exact ⟨acc, rfl⟩
+  | cons st more ih =>
+    intro acc
+    cases st with
+    | accumulate => exact ih _
+    | check => simp only [runBody, hx, Bool.false_eq_true]; exact ih acc
+    | continueIf p =>
+      simp only [runBody]
+      by_cases hs : Q.skip p x.raw = true
+      · exact ⟨acc, by simp [hs]⟩
+      · simp only [hs]; exact ih acc
+
+theorem runBody_safe_ok (op : OpSpec) (D : Delegate S R) (Q : Quick S R) (t0 : Tag) (x : Obj S) :
+    ∀ (body : List LoopStmt), safeBody body = true → ∀ (acc acc' : R),
+      runBody op D Q t0 x acc body = .ok acc' → tagEq t0 x.crs = true := by
+  intro body
+  induction body with
+  | nil => intro h; simp [safeBody] at h
+  | cons st more ih =>
+    intro h acc acc' hr
+    cases st with
+    | accumulate => exact ih (by simpa [safeBody] using h) _ acc' hr
+    | check =>
+      simp only [runBody] at hr
+      by_cases hne : tagNe t0 x.crs = true
+      · simp [hne] at hr
+      · exact (tagNe_false_iff _ _).mp (by simpa using hne)
+    | continueIf p => simp [safeBody] at h
+
+theorem runBody_safe_mismatch (op : OpSpec) (D : Delegate S R) (Q : Quick S R) (t0 : Tag) (x : Obj S)
+    (hx : tagNe t0 x.crs = true) :
+    ∀ (body : List LoopStmt), safeBody body = true → ∀ (acc : R),
+      runBody op D Q t0 x acc body = .error op.mismatchErr := by
+  intro body
+  induction body with
+  | nil => intro h; simp [safeBody] at h
+  | cons st more ih =>
+    intro h acc
+    cases st with
+    | accumulate => exact ih (by simpa [safeBody] using h) _
+    | check => simp [runBody, hx]
+    | continueIf p => simp [safeBody] at h
+
+/-- **Safe programs never mix**: if the program text has the CRS comparison before anything
+that can return, skip or call shapely, then a returned result means every operand's CRS
+compared equal to the first — whatever quick rejects, `continue`s or delegates follow. -/
+theorem safe_prog_no_mixed (op : OpSpec) (D : Delegate S R) (Q : Quick S R) (p : Prog)
+    (hs : p.safe = true) (x0 : Obj S) (rest : List (Obj S)) (r : Out R)
+    (h : runProg op D Q p x0 rest = .ok r) : ∀ x ∈ rest, tagEq x0.crs x.crs = true := by
+  cases p with
+  | straight stmts =>
+    cases stmts with
+    | nil => simp [Prog.safe, safeStmts] at hs
+    | cons st more =>
+      cases st with
+      | checkRest rev =>
+        simp only [runProg, runStmts] at h
+        cases hg : guardAll rev op.mismatchErr x0.crs rest with
+        | error e => simp [hg] at h
+        | ok u => exact (guardAll_ok_iff rev op.mismatchErr x0.crs rest).mp hg
+      | returnIf p => simp [Prog.safe, safeStmts] at hs
+      | delegate => simp [Prog.safe, safeStmts] at hs
+  | loop body =>
+    simp only [Prog.safe] at hs
+    simp only [runProg] at h
+    cases hl : runLoop op D Q x0.crs body (D.init op.name x0.raw) rest with
+    | error e => simp [hl] at h
+    | ok acc =>
+      clear h
+      generalize D.init op.name x0.raw = a0 at hl
+      induction rest generalizing a0 with
+      | nil => intro x hx; cases hx
+      | cons y ys ih =>
+        simp only [runLoop] at hl
+        cases hb : runBody op D Q x0.crs y a0 body with
+        | error e => simp [hb] at hl
+        | ok a1 =>
+          simp only [hb] at hl
+          intro x hx
+          rcases List.mem_cons.mp hx with rfl | hx
+          · exact runBody_safe_ok op D Q x0.crs x body hs a0 a1 hb
+          · exact ih a1 hl x hx
+
+/-- **Safe programs raise on every mismatch**, wherever in the operand list it sits. -/
+theorem safe_prog_mismatch_raises (op : OpSpec) (D : Delegate S R) (Q : Quick S R) (p : Prog)
+    (hs : p.safe = true) (x0 : Obj S) (rest : List (Obj S))
+    (hmis : ∃ x ∈ rest, tagNe x0.crs x.crs = true) :
+    runProg op D Q p x0 rest = .error op.mismatchErr := by
+  have hna : ¬ AllEq x0.crs rest := by
+    intro hall
+    obtain ⟨x, hx, hne⟩ := hmis
+    simp [tagNe, hall x hx] at hne
+  cases p with
+  | straight stmts =>
+    cases stmts with
+    | nil => simp [Prog.safe, safeStmts] at hs
+    | cons st more =>
+      cases st with
+      | checkRest rev =>
+        simp only [runProg, runStmts]
+        rw [guardAll_err_of_not_allEq rev _ _ rest hna]
+      | returnIf p => simp [Prog.safe, safeStmts] at hs
+      | delegate => simp [Prog.safe, safeStmts] at hs
+  | loop body =>
+    simp only [Prog.safe] at hs
+    simp only [runProg]
+    have key : ∀ (ys : List (Obj S)) (a0 : R), ¬ AllEq x0.crs ys →
+        runLoop op D Q x0.crs body a0 ys = .error op.mismatchErr := by
+      intro ys
+      induction ys with
+      | nil => intro _ h; exact absurd (allEq_nil _) h
+      | cons y ys ih =>
+        intro a0 h
+        simp only [runLoop]
+        by_cases hy : tagNe x0.crs y.crs = true
+        · rw [runBody_safe_mismatch op D Q x0.crs y hy body hs a0]
+        · have hy' : tagNe x0.crs y.crs = false := by simpa using hy
+          obtain ⟨a1, ha⟩ := runBody_of_eq op D Q x0.crs y hy' body a0
+          rw [ha]
+          have : ¬ AllEq x0.crs ys := fun h' =>
+            h (allEq_cons.mpr ⟨(tagNe_false_iff _ _).mp hy', h'⟩)
+          simp only
+          exact ih a1 this
+    rw [key rest _ hna]
+
+/-- the program of a walk *is* the operation: `run` executes exactly that statement list -/
+theorem prog_refines_run (op : OpSpec) (D : Delegate S R) (Q : Quick S R) (p : Prog)
+    (hp : progOf op.walk = some p) (x0 : Obj S) (rest : List (Obj S))
+    (har : op.arity = .two → rest.length = 1) :
+    run op D (x0 :: rest) = runProg op D Q p x0 rest := by
+  have har' : ¬ (op.arity = .two ∧ rest.length ≠ 1) := fun h => h.2 (har h.1)
+  unfold run
+  simp only [har', if_false]
+  cases hw : op.walk with
+  | guardFirst rev =>
+    rw [hw] at hp
+    simp only [progOf, Option.some.injEq] at hp
+    subst hp
+    simp only [runProg, runStmts]
+  | reduce => rw [hw] at hp; simp [progOf] at hp
+  | pixelEach => rw [hw] at hp; simp [progOf] at hp
+  | foldCheckInside =>
+    rw [hw] at hp
+    simp only [progOf, Option.some.injEq] at hp
+    subst hp
+    simp only [runProg]
+    have : ∀ (ys : List (Obj S)) (a0 : R),
+        foldGo D op.name op.mismatchErr x0.crs a0 ys
+          = runLoop op D Q x0.crs [.accumulate, .check] a0 ys := by
+      intro ys
+      induction ys with
+      | nil => intro _; rfl
+      | cons y ys ih =>
+        intro a0
+        simp only [foldGo, runLoop, runBody]
+        by_cases hy : tagNe x0.crs y.crs = true
+        · simp [hy]
+        · simp only [hy]; exact ih _
+    rw [this]
+
+/-- every walk of the table that has a program has a **safe** one: no table operation places a
+quick reject, an early return or a `continue` above its CRS comparison -/
+theorem table_progs_safe : ∀ op ∈ opTable, ∀ p, progOf op.walk = some p → p.safe = true := by
+  decide
+
+/-- why `safe` is needed — the shape of seeded change C01-10: a bounding-box quick reject above
+the check returns a result for operands in different CRSs … -/
+theorem unsafe_quick_reject_mixes_cex :
+    (Prog.straight [.returnIf 0, .checkRest true, .delegate]).safe = false ∧
+    (match runProg (S := Nat) (R := Nat) ⟨"Geometry.split", .guardFirst true, .two, .nothing, .first, .crsMismatch⟩
+        ⟨fun _ _ => .ok 0, fun _ s => s, fun _ a _ => .ok a, fun _ a _ => a, fun _ _ _ => .ok 0, fun _ _ _ => .ok 0⟩
+        ⟨fun _ _ => true, fun _ _ => 7, fun _ _ => false⟩
+        (.straight [.returnIf 0, .checkRest true, .delegate]) ⟨some ⟨1, 4326, 1, 1⟩, 0⟩ [⟨none, 1⟩] with
+      | .ok (.val _ 7) => true
+      | _ => false) = true := by decide
+
+/-- … and the shape of C01-11: a `continue` above the check lets an operand of another CRS through -/
+theorem unsafe_continue_mixes_cex :
+    (Prog.loop [.continueIf 0, .accumulate, .check]).safe = false ∧
+    (match runProg (S := Nat) (R := Nat) ⟨"geom.bbox_union", .foldCheckInside, .many, .err .valueError, .first, .crsMismatch⟩
+        ⟨fun _ _ => .ok 0, fun _ s => s, fun _ a _ => .ok a, fun _ a s => a + s, fun _ _ _ => .ok 0, fun _ _ _ => .ok 0⟩
+        ⟨fun _ _ => false, fun _ _ => 0, fun _ s => s == 99⟩
+        (.loop [.continueIf 0, .accumulate, .check]) ⟨some ⟨1, 4326, 1, 1⟩, 1⟩ [⟨some ⟨2, 3857, 2, 2⟩, 99⟩, ⟨some ⟨1, 4326, 1, 1⟩, 5⟩] with
+      | .ok (.val _ 6) => true
+      | _ => false) = true := by decide
+
+/-- what the access-logging probe of the harness must see for a safe program: an operand's CRS is
+read before its coordinates (`'C'`) unless the operation is the stream fold, which reads the
+numbers first and compares in the same iteration (`'R'`) -/
+theorem accessPattern_spec (w : Walk) :
+    (accessPattern w = 'R' ↔ w = .foldCheckInside) := by
+  cases w <;> simp [accessPattern]
+
+/-- `norm_crs_or_error` never hands back "no CRS": it returns a CRS or raises, and raises the
+`ValueError` exactly where `norm_crs` would answer `None` -/
+theorem normCrsOrError_spec (i : CrsInput) :
+    normCrsOrError i ≠ .ok .nothing ∧
+    (normCrs i = .ok .nothing → normCrsOrError i = .error .valueError) ∧
+    (∀ n, n ≠ .nothing → normCrs i = .ok n → normCrsOrError i = .ok n) ∧
+    (∀ e, normCrs i = .error e → normCrsOrError i = .error e) := by
+  cases i with
+  | none => simp [normCrsOrError, normCrs]; exact fun n h h' => h h'.symm
+  | unset => simp [normCrsOrError, normCrs]; exact fun n h h' => h h'.symm
+  | odc => simp [normCrsOrError, normCrs]
+  | utmText c => cases c <;> simp [normCrsOrError, normCrs]
+  | otherSpec a => cases a <;> simp [normCrsOrError, normCrs]
+
 /-! ### bounding boxes with the real arithmetic -/
 
 theorem bboxUnion_mismatch (x0 : Obj BBox) (rest : List (Obj BBox))
